@@ -7,7 +7,6 @@ package main
 import (
 	"fmt"
 	"go/types"
-	"sort"
 	"strconv"
 	"strings"
 
@@ -76,6 +75,7 @@ type Ctx struct {
 	strLits  map[string]*Term
 	boxTypes map[string]types.Type
 	cloIDs   map[*ssa.Function]int
+	inputMode bool
 	axioms   []*Term
 
 	Bool, Int, Ref, Iface, Str, Slice, Unit, MapH, Float *Sort
@@ -389,6 +389,9 @@ func (c *Ctx) Eq(a, b *Term) *Term {
 	}
 	if a.Op == "cell" && b.Op == "cell" {
 		return c.False
+	}
+	if a.Op == "clo" && b.Op == "const" && strings.HasPrefix(b.Name, "nil_F_") || b.Op == "clo" && a.Op == "const" && strings.HasPrefix(a.Name, "nil_F_") {
+		return c.False // a closure value is never the nil function
 	}
 	if a.Op == "box" && b.Op == "box" {
 		if a.Name != b.Name {
@@ -876,12 +879,3 @@ func (c *Ctx) show(sb *strings.Builder, t *Term, d int) {
 	}
 }
 
-// sortedKeys is a small helper for deterministic output.
-func sortedKeys[V any](m map[string]V) []string {
-	ks := make([]string, 0, len(m))
-	for k := range m {
-		ks = append(ks, k)
-	}
-	sort.Strings(ks)
-	return ks
-}
